@@ -179,30 +179,35 @@ def run(ctx):
             break
 
     # ---- 3. load into a fresh object of the same structure: C++-written and model-written files
-    load_lines = []
-    for (k, ws, d), a, b in zip(objs, cpp_hex, ml_hex):
+    load_lines, load_tag = [], []
+    for oi, ((k, ws, d), a, b) in enumerate(zip(objs, cpp_hex, ml_hex)):
         if a.startswith("err"):
             continue
         fresh = io.fresh_like(k, d)
         load_lines.append(io.line("load", k, ws, fresh, a))
+        load_tag.append((oi, "fresh"))
         if b != a and not b.startswith("err"):
             load_lines.append(io.line("load", k, ws, fresh, b))
+            load_tag.append((oi, "fresh"))
         if k in "pm":   # the other with_stats setting, and into a pre-filled object
             load_lines.append(io.line("load", k, not ws, io.other_like(ctx.rng, k, d), a))
+            load_tag.append((oi, "other"))
     dist["load"] = len(load_lines)
     badl = pv.correspondence(ctx, "io-load", load_lines, impl, model, functional=True, impl_env=env,
                              nontrivial=lambda c, out: out.startswith("ok"))
-    # property oracle on the implementation alone: the state after loading the model-written
-    # file equals the state after loading the file the real code wrote
+    # property oracle on the implementation alone: loading into a fresh object succeeds, and the
+    # state after loading the model-written file equals the state after loading the file the
+    # real code wrote
     if not badl:
         rc, outs = io.run_impl(impl, load_lines, env)
         by_obj = {}
-        for ln, o in zip(load_lines, outs):
-            key = ln.rsplit(" ", 1)[0]
-            by_obj.setdefault(key, set()).add(o)
-        for key, s in by_obj.items():
+        for (oi, tag), ln, o in zip(load_tag, load_lines, outs):
+            if tag == "fresh":
+                by_obj.setdefault(oi, []).append((ln, o))
+        for oi, lst in by_obj.items():
+            s = set(o for (_, o) in lst)
             if len(s) > 1 or not next(iter(s)).startswith("ok"):
-                ctx.violation("load-oracle", {"kind": "roundtrip", "case": key[:4000], "outputs": [x[:2000] for x in s], "witness": "io-load-oracle"}, True,
+                ctx.violation("load-oracle", {"kind": "roundtrip", "case": lst[0][0][:20000], "outputs": [x[:2000] for x in s], "witness": "io-load-oracle"}, True,
                               "loading a saved file into a fresh object failed or gave different states for the two encodings")
                 break
 
